@@ -248,6 +248,116 @@ def reuse_sources(ctx, d, n, raw, exp, prev, HttpSource, DiskSource, DelimSource
     elif got[2] != exp: bad("http:reused-source:first-response-again", "the same HttpSource read %r (%s) a second time as %r, expected %r" % (raw, e1 or "identity", got[2], exp), rep)
 
 
+# ---- long, highly compressible bodies (spec: ConcatLines / ArffRepeat / CsvRepeat / SvmRepeat) ----
+def encodings_of(body, split_at_byte):
+    """(label, Content-Encoding, bytes, must_be_accepted): level 9; gzip in one member and in two, raw deflate (what
+    coba's own unit test sends) and zlib-wrapped deflate (RFC 9110's form: may be refused, must never be misread)."""
+    raw9 = zlib.compressobj(9, zlib.DEFLATED, -zlib.MAX_WBITS)
+    return [("gzip", "gzip", gzip.compress(body, 9), True),
+            ("gzip-multi-member", "gzip", gzip.compress(body[:split_at_byte], 9) + gzip.compress(body[split_at_byte:], 9), True),
+            ("deflate", "deflate", raw9.compress(body) + raw9.flush(), True),
+            ("deflate-zlib-wrapped", "deflate", zlib.compress(body, 9), False),
+            ("identity", None, body, True)]
+
+
+def through_http(HttpSource, header, data, size, wrap=None):
+    """The real HttpSource object (urllib's urlopen answers with a canned response): its lines, or what `wrap` makes
+    of the source (a format source built on it)."""
+    import urllib.request
+    real = urllib.request.urlopen
+    urllib.request.urlopen = lambda req, timeout=None: FakeResponse(data, header)
+    try:
+        src = HttpSource("http://c12.invalid/long", chunk_size=size)
+        if wrap: return list(wrap(src).read())
+        got = src.read()
+        return got.splitlines() if isinstance(got, str) else list(got)
+    finally:
+        urllib.request.urlopen = real
+
+
+def sig_long(label, what): return ("http:long-body:identity:%s" if label == "identity" else "http:compressed-long-body:" + label + ":%s") % what
+
+
+def long_texts(ctx, HttpSource, texts):
+    """Every k-th TLC text, closed by LF, repeated 50 / 200 / 500 times (expected lines = the spec's `unit` lines
+    repeated, ConcatLines), compressed for real and delivered through HttpSource in many chunk sizes."""
+    n_del = n_rej = 0
+    step = ctx.pick(6, 8)
+    for n, (raw, (exp, unit)) in enumerate(sorted(texts.items())):
+        if n % step != 2: continue
+        piece = raw if raw.endswith(b"\n") else raw + b"\n"
+        reps = (50, 200, 500)[(n // step) % 3]
+        body = piece * reps; want = unit * reps
+        for label, header, data, must in encodings_of(body, len(piece) * (reps // 2)):
+            sizes = (7, 64, 1024, len(data) + 10, None) if label == "identity" else (1, 2, 3, 7, 64, 1024, len(data) + 10, None)
+            for size in sizes:
+                ctx.case(("long", label, size, raw, reps)); ctx.traces += 1; n_del += 1
+                rep = dict(piece=piece.decode("utf-8"), repeated=reps, encoding=label, chunk_size=size, compressed_bytes=len(data), plain_bytes=len(body), expected_lines=len(want))
+                try: got = through_http(HttpSource, header, data, size)
+                except Exception as e:
+                    if not must: n_rej += 1; continue
+                    ctx.violation(sig_long(label, "raises-" + type(e).__name__), "HttpSource(chunk_size=%r) on %r x %d (%s, %d -> %d bytes) raised %s: %s" % (size, piece, reps, label, len(body), len(data), type(e).__name__, str(e)[:80]), rep); continue
+                if got != want:
+                    k = next((i for i, (a, b) in enumerate(zip(got, want)) if a != b), min(len(got), len(want)))
+                    ctx.violation(sig_long(label, "lines-differ"), "HttpSource(chunk_size=%r) on %r x %d (%s, %d -> %d bytes) gave %d lines, the text has %d; first difference at line %d: %r" % (size, piece, reps, label, len(body), len(data), len(got), len(want), k, got[k:k + 2]), rep)
+    ctx.extra["long_text_deliveries"] = n_del; ctx.extra["zlib_wrapped_deflate_refused"] = n_rej
+
+
+def long_tables(ctx, rng, okcases, failures):
+    """A few TLC table files with their data lines repeated to >= 1000 rows (expected rows = the spec's rows repeated,
+    ArffRepeat / CsvRepeat / SvmRepeat), compressed for real, read end to end by ArffSource / CsvSource / LibSvmSource /
+    ManikSource built on the real HttpSource in several chunk sizes: lines, row count and rows must be the file's."""
+    from coba.pipes.sources import HttpSource
+    from coba.environments.supervised import ArffSource, CsvSource, LibSvmSource, ManikSource
+    groups = {}
+    for k in okcases:
+        fmt, c = k[0], k[1]
+        if len(c["devs"]) > 2: continue
+        g = ("arff", c["sparse"]) if fmt == "arff" else ("csv", c["hdr"]) if fmt == "csv" else ("svm", c["manik"])
+        groups.setdefault(g, []).append(k)
+    n_files = n_runs = 0
+    for g in sorted(groups, key=str):
+        for n, (fmt, c, lines, attrs, rows) in enumerate(rng.sample(groups[g], min(len(groups[g]), ctx.pick(2, 8)))):
+            if fmt == "arff":
+                d = max(i for i, l in enumerate(lines) if l.strip().lower() == "@data")
+                head, data, nrows = lines[:d + 1], lines[d + 1:], len(rows)
+            elif fmt == "csv": head, data, nrows = (lines[:1], lines[1:], len(c["rows"])) if c["hdr"] else ([], lines, len(c["rows"]))
+            else: head, data, nrows = (lines[:1], lines[1:], len(c["rows"])) if c["manik"] else ([], lines, len(c["rows"]))
+            if not nrows or not data: continue
+            m = -(-1000 // nrows)
+            long_lines = head + data * m
+            nl = "\r\n" if n % 2 else "\n"
+            body = (nl.join(long_lines) + nl).encode("utf-8")
+            want_lines = [l for l in long_lines]
+            if fmt == "arff":
+                wrap = ArffSource; judge_rows = lambda got: read_arff(long_lines, attrs, rows * m, c["sparse"], None, got)
+            elif fmt == "csv":
+                cc = dict(c, rows=c["rows"] * m, lines=long_lines)
+                wrap = lambda src: CsvSource(src, has_header=c["hdr"], **csv_kw(c)); judge_rows = lambda got: read_csv(cc, None, got)
+            else:
+                cc = dict(c, rows=c["rows"] * m, lines=long_lines)
+                wrap = ManikSource if c["manik"] else LibSvmSource; judge_rows = lambda got: read_svm(cc, None, got)
+            n_files += 1
+            half = len((nl.join(long_lines[:len(long_lines) // 2]) + nl).encode("utf-8"))
+            for label, header, data_z, must in encodings_of(body, half):
+                if not must: continue
+                sizes = (64, 1024, len(data_z) + 10) if label == "identity" else (1, 3, 64, 1024, len(data_z) + 10)
+                for size in sizes:
+                    ctx.case(("longtab", fmt, label, size, tuple(lines))); ctx.traces += 1; n_runs += 1
+                    rep = dict(file_head=long_lines[:len(head) + len(data)], data_lines_repeated=m, rows=nrows * m, encoding=label, chunk_size=size, compressed_bytes=len(data_z), plain_bytes=len(body))
+                    descr = "%s file of %d rows (%s, %d -> %d bytes) through HttpSource(chunk_size=%d)" % (fmt, nrows * m, label, len(body), len(data_z), size)
+                    try: got_lines = through_http(HttpSource, header, data_z, size)
+                    except Exception as e:
+                        failures.append(("http", "long", sig_long(label, "raises-" + type(e).__name__), "%s raised %s: %s" % (descr, type(e).__name__, str(e)[:80]), rep)); continue
+                    if got_lines != want_lines:
+                        failures.append(("http", "long", sig_long(label, "lines-differ"), "%s gave %d lines, the file has %d (last line read: %r)" % (descr, len(got_lines), len(want_lines), got_lines[-1:] ), rep)); continue
+                    try: o = judge_rows(through_http(HttpSource, header, data_z, size, wrap))
+                    except Exception as e: o = Outcome("raises", "", "%s: %s" % (type(e).__name__, str(e)[:100]))
+                    if o.kind != "ok":
+                        failures.append(("http", "long", sig_long(label, "%s-%s" % (fmt, o.aspect or "raises")), "%s read by %s: %s" % (descr, "the format source built on it", o.what), rep))
+    ctx.extra["long_table_files"] = n_files; ctx.extra["long_table_reads"] = n_runs
+
+
 def run_delim(ctx, rng, pool):
     from coba.pipes.sources import HttpSource, DiskSource, DelimSource, ListSource
     from coba.pipes.sinks import DiskSink
@@ -263,7 +373,8 @@ def run_delim(ctx, rng, pool):
             raw = b"".join(BYTE[b] for b in c["bytes"])
             cuts = [i + 1 for i, f in enumerate(c["cuts"]) if f]
             exp = [l.replace("E", NONASCII).replace("W", "\u20ac").replace("y", " ") for l in c["lines"]]
-            texts.setdefault(raw, exp)
+            conv = lambda ls: [l.replace("E", NONASCII).replace("W", "\u20ac").replace("y", " ") for l in ls]
+            texts.setdefault(raw, (exp, conv(c["unit"])))
             if not raw: continue
             # identity: the chunks are the spec's
             deliver(ctx, HttpSource, None, raw, split_at(raw, cuts), exp, "identity")
@@ -277,7 +388,8 @@ def run_delim(ctx, rng, pool):
     # every text once more: really compressed, every fixed chunk size; whole text in one piece; disk round trips
     n = 0
     prev = (b"x \r\n\xc3\xa9\n", ["x ", NONASCII])
-    for raw, exp in sorted(texts.items()):
+    long_texts(ctx, HttpSource, texts)
+    for raw, (exp, unit) in sorted(texts.items()):
         if n % ctx.pick(3, 2) == 1:
             reuse_sources(ctx, d, n, raw, exp, prev, HttpSource, DiskSource, DelimSource, ListSource, DiskSink)
             prev = (raw, exp)
@@ -599,6 +711,7 @@ def run_tables(ctx, rng, pool):
         elif o.kind == "raises" and not c["common"]: rejcases.append(("svm", c, lines, None, None))
     # ---------------- from disk through Environments.from_supervised / OpenmlSource ----------------
     reuse_readers(ctx, rng, okcases, rejcases, failures)
+    long_tables(ctx, rng, okcases, failures)
     pipeline(ctx, rng, okcases, failures)
     report(ctx, failures)
     ctx.extra["files_read_to_the_table"] = stats["ok"]; ctx.extra["uncommon_spellings_rejected_with_an_error"] = stats["rejected"]
